@@ -149,8 +149,10 @@ def run_case(case, w):
     elif k == "swap":
         st, sf, vm, have = case[1], case[2], case[3], case[4]
         lines = b"MemTotal: 100 kB\nMemFree: 50 kB\n"
-        if have:
-            lines += b"SwapTotal: %d kB\nSwapFree: %d kB\n" % (st, sf)
+        if have is True or have == "total-only":
+            lines += b"SwapTotal: %d kB\n" % st
+        if have is True or have == "free-only":
+            lines += b"SwapFree: %d kB\n" % sf
         w.set_file("/proc/meminfo", lines)
         if VMSTAT[vm] is None:
             w.remove("/proc/vmstat")
@@ -203,7 +205,7 @@ def build_cases(thorough):
         if sf > st:
             continue
         for vm in VMSTAT:
-            for have in (True, False):
+            for have in (True, False, "total-only", "free-only"):
                 cases.append(("swap", st, sf, vm, have))
     return cases
 
